@@ -48,3 +48,47 @@ Definition serve_head (pf : bytes -> option Z) (ff : Z -> bytes) (t : tconf) (r 
           DHandle (mkBhead m_post (mc_path (op_method o)) false (op_proto_major o) h (-1)) a cx o
       end
   end.
+
+(** * Response side of an operation driven by a backend script *)
+From VG Require Import Model.Response.
+
+Inductive baction :=
+| BHadd (k v : bytes) | BHset (k v : bytes)
+| BStatus (code : Z)
+| BWrite (data : bytes)
+| BFlush.
+
+(** the response-side context fixed by validate *)
+Definition response_ctx (t : tconf) (o : opv) (ro : oracles) (eo : eoracles) (end_len : rend -> Z) : wctx :=
+  let same_codec := bytes_eqb (op_client_codec o) (op_server_codec o) in
+  mkWctx (op_client o) (op_server o) (client_env (op_client o)) (server_env (op_server o)) (mc_limit (op_method o))
+         (tc_known_comps t) (op_client_codec o) (op_server_codec o) same_codec false ro eo end_len.
+
+(** the handler's calls on the responseWriter; the result also records the outcome of every
+    Write as seen by the handler *)
+Fixpoint run_script (cx : wctx) (s : list baction) (r : rw) (wr : list wres) : rw * list wres :=
+  match s with
+  | [] => (r, wr)
+  | a :: rest =>
+      match a with
+      (* responseWriter.Header() hands out a scratch map once the end is written *)
+      | BHadd k v => if c_end_written (r_core r) then run_script cx rest r wr else
+                     run_script cx rest (set_core r (let c := r_core r in
+                         mkRwc (hadd k v (c_hdr c)) (c_flushed c) (c_end_written c) (c_meta c) (c_err c) (c_buf c) (c_resp_comp c) (c_out c))) wr
+      | BHset k v => if c_end_written (r_core r) then run_script cx rest r wr else
+                     run_script cx rest (set_core r (let c := r_core r in
+                         mkRwc (hset k v (c_hdr c)) (c_flushed c) (c_end_written c) (c_meta c) (c_err c) (c_buf c) (c_resp_comp c) (c_out c))) wr
+      | BStatus code => run_script cx rest (rw_write_header cx code r) wr
+      | BWrite d => let '(r', res) := rw_write cx d r in
+                    match res with
+                    | WPanic => (r', wr ++ [WPanic])
+                    | _ => run_script cx rest r' (wr ++ [res])
+                    end
+      | BFlush => run_script cx rest r wr
+      end
+  end.
+
+Definition serve_response (cx : wctx) (initial_hdr : hdrs) (s : list baction) : rw * list wres * wres :=
+  let '(r, wr) := run_script cx s (rw_init initial_hdr) [] in
+  if existsb (fun x => match x with WPanic => true | _ => false end) wr then (r, wr, WPanic)
+  else let '(r', res) := rw_close cx r in (r', wr, res).
